@@ -5,7 +5,7 @@
 //!
 //! case : (1 view)                         builder-API view, `RenderHtml::to_html()`
 //!        (2 k)                            k-th fixed macro-inlined (`view!`) view with hostile literals
-//!        (3 title metas link html body view)
+//!        (3 title metas link html body view shell)
 //!                                         document: leptos_meta components + the real
 //!                                         ServerMetaContextOutput::inject_meta_context over a shell
 //!        (4 k s)                          k-th `view!` template with the dynamic string s in its slot(s)
@@ -365,10 +365,32 @@ fn document(c: &Sexp) -> String {
         }
         parts.push(view(&body_view));
         let body = seq(parts).to_html();
+        // the application shell: c.at(7) = (no-marker static-title split)
+        let shell_cfg = c.at(7);
+        let marker = if shell_cfg.at(0).num() != 0 { "" } else { "<!--HEAD-->" };
+        let static_title = "<title>My App</title>";
+        let (t_before, t_after) = match shell_cfg.at(1).num() {
+            1 => (static_title, ""),
+            2 => ("", static_title),
+            _ => ("", ""),
+        };
         let shell = format!(
-            "<!DOCTYPE html><html><head><meta charset=\"utf-8\"><!--HEAD--></head><body>{body}</body></html>"
+            "<!DOCTYPE html><html><head><meta charset=\"utf-8\">{t_before}{marker}{t_after}</head><body>{body}</body></html>"
         );
-        let stream = futures::stream::iter(vec![shell, "<!--tail-->".to_string()]);
+        // the first chunk ends somewhere inside the body (per mille of its length), the
+        // rest of the document arrives in a second chunk
+        let permille = shell_cfg.at(2).num().clamp(0, 1000) as usize;
+        let body_start = shell.find("<body>").unwrap() + "<body>".len();
+        let mut cut = body_start + (shell.len() - body_start) * permille / 1000;
+        while !shell.is_char_boundary(cut) {
+            cut += 1;
+        }
+        let (first, second) = if permille == 0 {
+            (shell.clone(), String::new())
+        } else {
+            (shell[..cut].to_string(), shell[cut..].to_string())
+        };
+        let stream = futures::stream::iter(vec![first, second, "<!--tail-->".to_string()]);
         let fut = async move {
             let s = output.inject_meta_context(stream).await;
             s.collect::<Vec<String>>().await.concat()
